@@ -13,6 +13,11 @@ def gen(r, n):
     # stop/continue while running; while slow; during the timeout grace period (the F3 scenario)
     scs.append(dict(u=150, period=4, ta=None, grace=2, leak=0.7, dur=3.5, on_term="exit", sigs=[(1.5, "TSTP"), (5.5, "CONT")]))
     scs.append(dict(u=150, period=1, ta=2, grace=2, leak=0.7, dur=8.5, on_term="ignore", sigs=[(2.5, "TSTP"), (6.5, "CONT")]))
+    # the same without the double-spawn launcher (units spawned directly): the group is still stopped
+    scs.append(dict(u=150, period=4, ta=None, grace=2, leak=0.7, dur=3.5, on_term="exit", sigs=[(1.5, "TSTP"), (5.5, "CONT")],
+                    direct_spawn=True))
+    scs.append(dict(u=150, period=1, ta=2, grace=2, leak=0.7, dur=8.5, on_term="ignore", sigs=[(2.5, "TSTP"), (6.5, "CONT")],
+                    direct_spawn=True, child=True))
     scs.append(dict(u=150, period=1, ta=3, grace=1, leak=0.7, dur=8.5, on_term="ignore", sigs=[(1.5, "TSTP"), (5.5, "CONT")]))
     # two stops
     scs.append(dict(u=150, period=1, ta=2, grace=2, leak=0.7, dur=8.5, on_term="ignore",
